@@ -413,6 +413,7 @@ class SimPipeCore:
     def __init__(self):
         self.id = next(SimPipeCore._ids)
         self.msgs = collections.deque()
+        self.tags = collections.deque()      # what each message is (set by the harness' dumps wrapper)
 
 
 class SimConnection:
@@ -449,6 +450,10 @@ class SimConnection:
         self._check()
         b = bytes(buf)
         self.core.msgs.append(b[offset:] if size is None else b[offset:offset + size])
+        a = SimConnection.kernel.cur_actor()
+        self.core.tags.append(getattr(a, "send_tag", None) if a is not None else None)
+        if a is not None:
+            a.send_tag = None
 
     def send(self, obj):
         from multiprocessing.reduction import ForkingPickler
@@ -458,6 +463,8 @@ class SimConnection:
         self._check()
         SimConnection.kernel.park(f"pipe.recv {self.core.id}", enabled=lambda: len(self.core.msgs) > 0, obj=self)
         self._check()
+        if self.core.tags:
+            self.core.tags.popleft()
         return self.core.msgs.popleft()
 
     def recv(self):
